@@ -423,7 +423,15 @@ func (p *parser) parseNotExpression(depth int) ast.Child {
 	var child ast.Child
 	if item := p.peek(); item.Typ == itemParenLeft {
 		p.next() // consume paren
-		child = p.parsePermissionExpressions(itemParenRight, depth-1)
+		group := p.parsePermissionExpressions(itemParenRight, depth-1)
+		if group == nil {
+			// do not wrap a nil *SubjectSetRewrite into a non-nil ast.Child
+			if !p.fatal {
+				p.addFatal(item, "expected an expression after '!('")
+			}
+			return nil
+		}
+		child = group
 	} else {
 		child = p.parsePermissionExpression()
 	}
